@@ -49,6 +49,14 @@ def plan(tier, seed):
             specs.append(dict(name="grid-jit-%d" % i, mode="jit", kind="grid", part=i, parts=2, jit=True))
         for i in range(4):
             specs.append(dict(name="predict-%d" % i, mode="interp" if i < 3 else "jit", kind="predict", n=500, seed=[seed, 111, i]))
+    # the same work in an interpreter started with -O (assert statements compiled away)
+    byname = {sp["name"]: sp for sp in specs}
+    if 'rand-interp-0' in byname:
+        specs.append(common.under_O(byname['rand-interp-0'], **{'n': 300}))
+    if 'predict' in byname:
+        specs.append(common.under_O(byname['predict'], **{'n': 40}))
+    if 'predict-0' in byname:
+        specs.append(common.under_O(byname['predict-0'], **{'n': 100}))
     return specs
 
 
